@@ -5,6 +5,7 @@ aliases, join kind and sort direction preserved, set operations, clause complete
 table-agreement rules between the grammar's finite vocabularies and the renderer's dispatch code.
 """
 import ast
+import itertools
 
 from ..source import AnalysisError, norm, dotted, const_str, walk_no_nested
 from ..grammar import load_dialect, DIALECTS
@@ -225,6 +226,45 @@ def run(ctx):
         ctx.ob('C06.setop', f'{cn}:unique={uniq}', got == want,
                f'{cn}{"" if uniq else " ALL"} is rendered with {got} instead of {want}: duplicate handling / the set operation changes',
                file=FILE, line=pu.lineno, witness=f'select 1 {cn.upper()}{"" if uniq else " ALL"} select 2')
+    # nested set operations: the rendered expression must have the structure of the tree (each link keeps its own ALL flag)
+    from ..interp import Interp, Obj, Raised, Env
+    SA = {('Union', True): 'union', ('Union', False): 'union_all', ('Intersect', True): 'intersect', ('Intersect', False): 'intersect_all',
+          ('Except', True): 'except_', ('Except', False): 'except_all'}
+
+    def leaf(name):
+        return Obj('Select', _name=name, alias=None, parentheses=False)
+
+    def setop(kind, unique, l, r, alias=None):
+        return Obj(kind, left=l, right=r, unique=unique, alias=alias, parentheses=False)
+
+    def reference(n):
+        if n.kind == 'Select':
+            return n.attrs['_name']
+        return (SA[(n.kind, n.unique)], reference(n.left), reference(n.right))
+    trees = []
+    for k1, u1, k2, u2 in itertools.product(('Union', 'Intersect', 'Except'), (True, False), ('Union', 'Intersect', 'Except'), (True, False)):
+        trees.append((f'(a {k1}{"" if u1 else " ALL"} b) {k2}{"" if u2 else " ALL"} c', setop(k2, u2, setop(k1, u1, leaf('a'), leaf('b')), leaf('c'))))
+    trees.append(('a UNION (b UNION ALL c)', setop('Union', True, leaf('a'), setop('Union', False, leaf('b'), leaf('c')))))
+    trees.append(('((a UNION b) UNION ALL c) UNION d', setop('Union', True, setop('Union', False, setop('Union', True, leaf('a'), leaf('b')), leaf('c')), leaf('d'))))
+    for label, t in trees:
+        stubs = {}
+        for nm in set(SA.values()):
+            stubs[f'sa.{nm}'] = (lambda nm_: (lambda it, *a: (nm_,) + tuple(a)))(nm)
+
+        def prep_select(it, node):
+            if node.kind in ('Union', 'Intersect', 'Except'):
+                return it.call_function(pu, [Obj('SqlalchemyRender'), node], {}, Env())
+            return node.attrs['_name']
+        stubs['self.prepare_select'] = prep_select
+        it = Interp({'Union': set(), 'Intersect': set(), 'Except': set()}, stubs)
+        try:
+            got = it.call_function(pu, [Obj('SqlalchemyRender'), t], {}, Env())
+        except Raised as r:
+            got = f'<{r.exc_name}>'
+        want = reference(t)
+        ctx.ob('C06.setop-structure', label, got == want,
+               f'`{label}` is rendered as {got}, the tree says {want}: every link of a chain of set operations keeps its own operator and its own ALL / '
+               f'DISTINCT flag and its own grouping', file=FILE, line=pu.lineno, witness='select a from t union select a from u union all select a from v')
     # order -----------------------------------------------------------------------------------------------------------
     ob_sites = []
     for fn in [m for m in cls.body if isinstance(m, ast.FunctionDef)]:
